@@ -4,13 +4,28 @@ from vlib.core import Check, ROOT
 from vlib.xh import Harness, Batch
 
 
+APOSTROPHE_WITNESS = '''\
+import sys, warnings, logging; warnings.simplefilter('ignore'); logging.disable(logging.CRITICAL)
+import formulas
+from formulas.excel import BOOK
+d = {"'[b.xlsx]O''N'!A1": 5, "'[b.xlsx]O''N'!A2": "='[b.xlsx]O''N'!A1*2"}
+m = formulas.ExcelModel().from_dict(d).finish(complete=False)
+names = m.write(solution=m.calculate())['B.XLSX'][BOOK].sheetnames
+print('sheets written for the sheet O(apostrophe)N of a dictionary model:', names)
+if "O'N" not in names:
+    print("REPRODUCED: the sheet is written under its escaped spelling O''N"); sys.exit(1)
+sys.exit(0)
+'''
+
+
 def run(tier, seed):
     ck = Check('C16', tier, seed, level='exploration')
     import formulas.excel as EX
     ck.encode(EX.ExcelModel.write, EX.ExcelModel.compare, EX._book2dict, EX._get_name)
     ck.assume('template, two constants, one of 8 override sets and the way of writing (fresh books, books that already hold foreign cells, to disk and read back with openpyxl) are boolean selectors; every path runs the real write() / compare() natively',
               'cells of every value kind are present: numbers, text, empty text, logicals, blanks, error values, a 2x2 array-formula range, two workbooks')
-    ck.out_of_scope('workbooks loaded from files before writing', 'number formats and styles')
+    ck.out_of_scope('workbooks loaded from files before writing', 'sheet titles that need escaping (known finding C16-apostrophe-sheet-of-dictionary-model)', 'number formats and styles')
+    ck.check_known_witness('C16-apostrophe-sheet-of-dictionary-model', APOSTROPHE_WITNESS)
     quick = tier == 'quick'
     src = open(os.path.join(ROOT, 'harness', 'c16_write.py')).read()
     hs, batch = [], Batch()
